@@ -209,7 +209,7 @@ def run(R, tier):
                           'wildcards, cell reference) x 1-3 pairs x aligned / mis-sized / shifted targets; dateutil results for every text are an oracle '
                           'table; non-trivial = ranges with >= 2 cells; distinct by formula and workbook')
     C.proof_obligations(R, 'theories/Props/C12.v', 'Props.C12', TARGETS)
-    if any('build failed' in b for b in R.broken):
+    if any('Coq build failed' in b for b in R.broken):
         return
     n = 500 if tier == 'quick' else 6000
     recipes = corpus() + [gen_recipe(R.rng) for _ in range(n)]
